@@ -16,8 +16,8 @@
 (*                   payload, and every byte is stored verbatim (C08)      *)
 (*   WsInsignificant where white space is allowed, each of the 32 bytes    *)
 (*                   leaves the state unchanged (C11)                      *)
-(*   IncompleteOnlyInside  a non-final state after a newline-terminated    *)
-(*                   input is inside a payload (or a flagged quirk)        *)
+(*   IncompleteOnlyInside  a newline that does not end the unit was        *)
+(*                   consumed as payload (or is a flagged quirk)           *)
 (* Every x is printed with the verdict the specification pins for          *)
 (* parser::parse from every start node (REPLAY lines).                     *)
 (* Parameters: IfaceName, Sigma, MaxLen, Prefix (bytes fed before x),      *)
@@ -55,8 +55,8 @@ WsInsignificant ==
 WsStartsGap ==     \* the first white-space byte of a gap moves to the gap phase, whichever byte it is
   /\ (s.ph = "AA" => \A w \in WsBytes : Step(s, w).ph = "AAW")
   /\ (s.ph = "AQ" => \A w \in WsBytes : Step(s, w).ph = "WA")
-IncompleteOnlyInside ==
-  (x # <<>> /\ Last(x) = NL /\ ~Final(s)) => (InPayload(s) \/ s.ph = "BL")
+IncompleteOnlyInside ==     \* a newline that does not end the unit was consumed as payload
+  [][(x'[Len(x')] = NL /\ ~Final(s) /\ ~Final(s')) => (InPayload(s) \/ s.ph = "BL")]_vars
 
 \* ----------------------------------------- what parser::parse must answer
 NodeSig(p) == [cmd |-> TrieSlot(Cfg.trie, p, FALSE) - 1, qry |-> TrieSlot(Cfg.trie, p, TRUE) - 1,
@@ -77,5 +77,5 @@ Verdicts(start) ==
             [] OTHER -> IF x # <<>> /\ Last(x) = NL THEN {[v |-> "inc"]} ELSE {[v |-> "inc"], [v |-> "err"]}
 
 Emit == EmitReplay =>
-  PrintT(<<"REPLAY", ToJson([x |-> x, exp |-> [i \in 1..Len(Starts) |-> SetToSeq(Verdicts(Starts[i]))]])>>)
+  PrintT(<<"REPLAY", ToJson([x |-> x, exp |-> [i \in 1..Len(Starts) |-> Verdicts(Starts[i])]])>>)
 =============================================================================
